@@ -116,6 +116,14 @@ pub fn decode(data: &[u8]) -> Option<Val> {
     }
 }
 
+/// Lenient decoder for attribution oracles: at least as permissive as the decoder under test
+/// (trailing bytes after the first value are ignored, as serde_bencode does), so that a datagram
+/// the node may have accepted is never missing from an oracle's view.
+pub fn decode_lenient(data: &[u8]) -> Option<Val> {
+    let mut p = 0usize;
+    parse(data, &mut p, 0)
+}
+
 fn parse(d: &[u8], p: &mut usize, depth: usize) -> Option<Val> {
     if depth > 64 {
         return None;
@@ -197,7 +205,15 @@ pub struct Msg {
 impl Msg {
     /// Parse a datagram into a KRPC message (lenient about unknown keys).
     pub fn parse(data: &[u8]) -> Option<Msg> {
-        let v = decode(data)?;
+        Self::from_val(decode(data)?)
+    }
+
+    /// See `decode_lenient`.
+    pub fn parse_lenient(data: &[u8]) -> Option<Msg> {
+        Self::from_val(decode_lenient(data)?)
+    }
+
+    fn from_val(v: Val) -> Option<Msg> {
         let t = v.get("t")?.as_bytes()?.to_vec();
         let y = v.get("y")?.as_bytes()?;
         let kind = match y {
